@@ -38,7 +38,7 @@ META = {
                 'D2 descriptor negotiation concludes',
                 'D3 mechanisms in order, at most once; exhaustion closes',
                 'D4 no silent transition (incl. keyring failures are answered)',
-                'D5 unknown line closes, and closing '
+                'D5 unknown line closes (the command word is taken exactly: no lossy decoding, no case or whitespace normalisation), and closing '
                 'is final (no later line of the same read is processed)',
                 'D6 attribute discipline',
                 'D7 line framing independent of read splitting (shared with '
@@ -56,6 +56,13 @@ def f(m, s, name):
 def run(ctx):
     prog = ctx.prog
     m = Machine(prog, K)
+    lossy = m.lossy_dispatch_key()
+    ctx.ob('C07.D5', m.dispatch.qualname, 'command-word-taken-exactly',
+           not lossy, 'the handler is chosen from the command word after it '
+           'was %s: a server line that is NOT a protocol command (stray or '
+           'non-ASCII bytes, other case) runs the handler of one instead of '
+           'closing the connection' % '; '.join(
+               '%s (line %d)' % (t, ln) for ln, t in lossy))
     for need in ('authenticated', 'guid', 'unixFDSupport', 'authOrder',
                  'authMech'):
         if need not in m.fields:
